@@ -263,6 +263,134 @@ def s16_nan_sources(ctx):
         gbj = f.generic_body(tfn) or next((bj_ for bj_ in f.bodies.values() if bj_['def'] == tfn), None)
         if gbj is not None:
             table_file[tfn] = gbj['file']
+    def self_adt_of(b_):
+        if b_.arg_count >= 1:
+            tj = b_.locals[1]['tyj']
+            if tj['t'] == 'ref' and tj['to']['t'] == 'adt':
+                return tj['to']
+            if tj['t'] == 'adt':
+                return tj
+        return None
+
+    def classify(bj, b, bi, kind, tree, self_adt, line, key, desc, use_table=True):
+        T = _norm(tree)
+        cls = None
+        why = None
+        x = tree
+        while x[0] in ('ref', 'deref'):
+            x = x[1]
+        # G1
+        if x[0] == 'const' and isinstance(x[2], float):
+            if (kind in ('Div', 'recip') and x[2] != 0.0) or (kind == 'sqrt' and x[2] >= 0) or (kind in ('ln', 'log') and x[2] > 0):
+                cls, why = 'G1', 'literal %s' % x[2]
+        # G2: integer-derived or constructor-fixed float
+        if cls is None:
+            y = x
+            through_int = False
+            if y[0] == 'cast' and y[1] == 'IntToFloat':
+                through_int = True
+                y = y[2]
+                while y[0] == 'cast' or y[0] in ('ref', 'deref'):
+                    y = y[2] if y[0] == 'cast' else y[1]
+            if through_int and y[0] == 'call' and y[4].endswith('::max') and any(a[0] == 'const' and isinstance(a[2], int) and a[2] >= 1 for a in y[2]):
+                cls, why = 'G2', 'integer operand is max(.., c) with c >= 1'
+            chain = _field_chain(y)
+            if cls is None and chain and self_adt is not None:
+                # resolve the owning adt of the last field through the chain
+                adt = self_adt['def']
+                ok = True
+                for nm in chain[:-1]:
+                    a = f.adts.get(adt)
+                    nxt = None
+                    if a:
+                        for v in a['variants']:
+                            for fl in v['fields']:
+                                if fl['name'] == nm and fl['tyj']['t'] == 'adt':
+                                    nxt = fl['tyj']['def']
+                    if nxt is None:
+                        ok = False
+                        break
+                    adt = nxt
+                fact = facts.get((adt, chain[-1])) if ok else None
+                if fact:
+                    if fact[0] == 'int' and through_int and fact[1] >= 1:
+                        cls, why = 'G2', '%s.%s in [%d, %d] for every accepted instance (abstract interpretation of init/new)' % (adt.rsplit('::', 1)[-1], chain[-1], fact[1], fact[2])
+                    elif fact[0] == 'float' and not through_int and not fact[3] and (fact[1] > 0 or fact[2] < 0):
+                        cls, why = 'G2', '%s.%s is fixed at construction inside [%g, %g] and never written afterwards' % (adt.rsplit('::', 1)[-1], chain[-1], fact[1], fact[2])
+        # G3: sqrt of abs / square; dominating test
+        if cls is None and kind == 'sqrt':
+            if x[0] == 'call' and x[4].endswith('::abs'):
+                cls, why = 'G3', 'sqrt of abs(..)'
+            elif x[0] == 'bin' and x[1] == 'Mul' and _norm(x[2]) == _norm(x[3]):
+                cls, why = 'G3', 'sqrt of a square'
+        if cls is None and kind in ('atanh', 'acos', 'asin'):
+            lim = clamp_bounds(f, x)
+            if lim is not None:
+                lo, hi = lim
+                if kind == 'atanh' and -1.0 < lo <= hi < 1.0 or kind in ('acos', 'asin') and -1.0 <= lo <= hi <= 1.0:
+                    cls, why = 'G3', 'argument clamped to [%s, %s]' % (lo, hi)
+                else:
+                    r.violate(key + '|clamp-too-wide', '%s: the argument of %s is clamped to [%s, %s], which reaches the pole/outside of the domain' % (bj['def'], kind, lo, hi), b.file, line)
+                    cls = 'unguarded'
+        if cls is None and kind in ('Div', 'recip', 'Rem') and guarded_by_test(b, bi, T):
+            cls, why = 'G3', 'dominated by a numeric test excluding zero for the same value'
+        if cls is None:
+            tk = (bj['def'], kind, desc)
+            ent = NAN_TABLE.get(tk)
+            if not ent:
+                # the same computation moved into a helper of the same source file (or with a renamed local) keeps its recorded argument:
+                # entries are matched by (source file, operation, operand with local names blanked)
+                for (tfn, tkind, tdesc), tv in NAN_TABLE.items():
+                    if tkind == kind and _blank_locals(tdesc) == _blank_locals(desc) and table_file.get(tfn) == b.file:
+                        tk, ent = (tfn, tkind, tdesc), tv
+                        break
+            if ent and ent[1]:
+                cls, why = ent[0], ent[1]
+                used.add(tk)
+        return cls, why
+
+    # call sites of crate-local functions (for operands that are parameters of a private helper)
+    call_sites = {}
+    for bid0, bj0 in f.bodies.items():
+        if not bj0['generic'] or '::tests::' in bj0['def']:
+            continue
+        b0 = Body(bj0)
+        for bi0, t0 in b0.calls():
+            if t0['callee'].get('local') and t0['callee'].get('def'):
+                call_sites.setdefault(t0['callee']['def'], []).append((bj0, b0, bi0, t0))
+
+    def classify_in_callers(bj, b, kind, tree, key, desc, depth=0):
+        """the operand is (built from) parameters of a private helper: decide it at every call site, with the caller's arguments substituted
+        and the caller's dominating tests; a call from a constructor-like function counts as the constructor doing the arithmetic itself"""
+        fn_ = f.fns.get(bj['def'])
+        sites_ = call_sites.get(bj['def']) or []
+        if depth >= 2 or fn_ is None or fn_.get('vis') == 'pub' or not sites_:
+            return None, None
+        if not any(isinstance(x_, tuple) and x_ and x_[0] == 'arg' for x_ in walk_tree(tree)):
+            return None, None
+        whys = []
+        for cbj, cb, cbi, ct in sites_:
+            cname = cbj['def'].split('::{closure')[0].rsplit('::', 1)[-1]
+            if cname in CTOR_FNS:
+                whys.append('called from constructor %s' % cname)
+                continue
+            args_ = [cb.tree_of_operand(a_) for a_ in ct['args']]
+
+            def sub(x_):
+                if isinstance(x_, tuple):
+                    if x_ and x_[0] == 'arg' and isinstance(x_[1], int) and 1 <= x_[1] <= len(args_):
+                        return args_[x_[1] - 1]
+                    return tuple(sub(y_) for y_ in x_)
+                return x_
+            t2 = sub(tree)
+            c2, w2 = classify(cbj, cb, cbi, kind, t2, self_adt_of(cb), cb.term_line(cbi), key, short_desc(t2), use_table=True)
+            if c2 is None:
+                c2, w2 = classify_in_callers(cbj, cb, kind, t2, key, short_desc(t2), depth + 1)
+            if c2 is None or c2 == 'unguarded':
+                return None, None
+            whys.append('%s at the call in %s' % (w2, cbj['def'].rsplit('::', 1)[-1]))
+        return 'G2c', 'operand is a parameter of a private helper, decided at its %d call site(s): %s' % (len(sites_), '; '.join(sorted(set(whys)))[:160])
+
     n = 0
     seen_sites = set()
     for bid, bj in sorted(f.bodies.items()):
@@ -295,80 +423,9 @@ def s16_nan_sources(ctx):
             seen_sites.add(key)
             n += 1
             r.inst(key)
-            T = _norm(tree)
-            cls = None
-            why = None
-            x = tree
-            while x[0] in ('ref', 'deref'):
-                x = x[1]
-            # G1
-            if x[0] == 'const' and isinstance(x[2], float):
-                if (kind in ('Div', 'recip') and x[2] != 0.0) or (kind == 'sqrt' and x[2] >= 0) or (kind in ('ln', 'log') and x[2] > 0):
-                    cls, why = 'G1', 'literal %s' % x[2]
-            # G2: integer-derived or constructor-fixed float
+            cls, why = classify(bj, b, bi, kind, tree, self_adt, line, key, desc)
             if cls is None:
-                y = x
-                through_int = False
-                if y[0] == 'cast' and y[1] == 'IntToFloat':
-                    through_int = True
-                    y = y[2]
-                    while y[0] == 'cast' or y[0] in ('ref', 'deref'):
-                        y = y[2] if y[0] == 'cast' else y[1]
-                if through_int and y[0] == 'call' and y[4].endswith('::max') and any(a[0] == 'const' and isinstance(a[2], int) and a[2] >= 1 for a in y[2]):
-                    cls, why = 'G2', 'integer operand is max(.., c) with c >= 1'
-                chain = _field_chain(y)
-                if cls is None and chain and self_adt is not None:
-                    # resolve the owning adt of the last field through the chain
-                    adt = self_adt['def']
-                    ok = True
-                    for nm in chain[:-1]:
-                        a = f.adts.get(adt)
-                        nxt = None
-                        if a:
-                            for v in a['variants']:
-                                for fl in v['fields']:
-                                    if fl['name'] == nm and fl['tyj']['t'] == 'adt':
-                                        nxt = fl['tyj']['def']
-                        if nxt is None:
-                            ok = False
-                            break
-                        adt = nxt
-                    fact = facts.get((adt, chain[-1])) if ok else None
-                    if fact:
-                        if fact[0] == 'int' and through_int and fact[1] >= 1:
-                            cls, why = 'G2', '%s.%s in [%d, %d] for every accepted instance (abstract interpretation of init/new)' % (adt.rsplit('::', 1)[-1], chain[-1], fact[1], fact[2])
-                        elif fact[0] == 'float' and not through_int and not fact[3] and (fact[1] > 0 or fact[2] < 0):
-                            cls, why = 'G2', '%s.%s is fixed at construction inside [%g, %g] and never written afterwards' % (adt.rsplit('::', 1)[-1], chain[-1], fact[1], fact[2])
-            # G3: sqrt of abs / square; dominating test
-            if cls is None and kind == 'sqrt':
-                if x[0] == 'call' and x[4].endswith('::abs'):
-                    cls, why = 'G3', 'sqrt of abs(..)'
-                elif x[0] == 'bin' and x[1] == 'Mul' and _norm(x[2]) == _norm(x[3]):
-                    cls, why = 'G3', 'sqrt of a square'
-            if cls is None and kind in ('atanh', 'acos', 'asin'):
-                lim = clamp_bounds(f, x)
-                if lim is not None:
-                    lo, hi = lim
-                    if kind == 'atanh' and -1.0 < lo <= hi < 1.0 or kind in ('acos', 'asin') and -1.0 <= lo <= hi <= 1.0:
-                        cls, why = 'G3', 'argument clamped to [%s, %s]' % (lo, hi)
-                    else:
-                        r.violate(key + '|clamp-too-wide', '%s: the argument of %s is clamped to [%s, %s], which reaches the pole/outside of the domain' % (bj['def'], kind, lo, hi), b.file, line)
-                        cls = 'unguarded'
-            if cls is None and kind in ('Div', 'recip', 'Rem') and guarded_by_test(b, bi, T):
-                cls, why = 'G3', 'dominated by a numeric test excluding zero for the same value'
-            if cls is None:
-                tk = (bj['def'], kind, desc)
-                ent = NAN_TABLE.get(tk)
-                if not ent:
-                    # the same computation moved into a helper of the same source file (or with a renamed local) keeps its recorded argument:
-                    # entries are matched by (source file, operation, operand with local names blanked)
-                    for (tfn, tkind, tdesc), tv in NAN_TABLE.items():
-                        if tkind == kind and _blank_locals(tdesc) == _blank_locals(desc) and table_file.get(tfn) == b.file:
-                            tk, ent = (tfn, tkind, tdesc), tv
-                            break
-                if ent and ent[1]:
-                    cls, why = ent[0], ent[1]
-                    used.add(tk)
+                cls, why = classify_in_callers(bj, b, kind, tree, key, desc)
             if cls == 'unguarded':
                 classes[cls] = classes.get(cls, 0) + 1
                 continue
@@ -406,16 +463,24 @@ def nonneg(t, facts, self_adt, f, depth=0):
             x = t[2][0]
             while x[0] in ('ref', 'deref'):
                 x = x[1]
-            # sum over map(.., abs)
+            # sum over map(.., abs) / map(.., closure returning a non-negative value)
             if x[0] == 'call' and x[4].endswith('::map') and len(x[2]) == 2:
                 fn = x[2][1]
                 if fn[0] == 'fn' and fn[1].endswith('::abs'):
+                    return True
+                cid = next((y[2] for y in walk_tree(fn) if isinstance(y, tuple) and y and y[0] == 'agg' and y[1] == 'closure'), None)
+                cbj = f.bodies.get(cid) if cid else None
+                if cbj is not None and _returns_nonneg(cbj, facts, self_adt, f, depth + 1):
                     return True
             return False
         if name in ('max',) and any(nonneg(a, facts, self_adt, f, depth + 1) for a in t[2]):
             return True
         if name in ('get_divider',):
             return True if _accessor_positive(t, facts, f) else False
+        # a crate-local helper all of whose results are non-negative (`abs_dev_sum(&self, center)`, ...)
+        hb = f.generic_body(t[4]) if f.fns.get(t[4]) is not None or t[4] in getattr(f, 'fns', {}) else None
+        if hb is not None and _returns_nonneg(hb, facts, self_adt, f, depth + 1):
+            return True
         return False
     if k == 'bin':
         if t[1] in ('Mul',):
@@ -453,6 +518,24 @@ def nonneg(t, facts, self_adt, f, depth=0):
                 return True
         return False
     return False
+
+
+def _returns_nonneg(bj, facts, self_adt, f, depth):
+    from paths import all_path_facts, TooManyPaths
+    if depth > 6:
+        return False
+    b = Body(bj)
+    adt = self_adt
+    if b.arg_count >= 1 and not bj.get('closure_of'):
+        tj = b.locals[1]['tyj']
+        tj = tj['to'] if tj['t'] == 'ref' else tj
+        if tj.get('t') == 'adt':
+            adt = tj['def']
+    try:
+        pfs = [pf for pf in all_path_facts(b) if pf.returns]
+    except TooManyPaths:
+        return False
+    return bool(pfs) and all(pf.ret is not None and nonneg(pf.ret, facts, adt, f, depth + 1) for pf in pfs)
 
 
 def _accessor_positive(t, facts, f):
